@@ -212,6 +212,132 @@ static int r_tentative(const Witness &w) {
     return 0;
 }
 
+// ================================================================ appended: interpolation units (units/c04_interp.py)
+// ---------------------------------------------------------------- ruge_stuben::transfer_operators, interpolation region
+// connect() / cfsplit() are private static members: the driver reads the REAL strong-connection flags and the REAL
+// C/F splitting through them (the only purpose of the access hack below) and evaluates the documented direct
+// interpolation formula with truncation on the P returned by the real transfer_operators().
+#include <amgcl/coarsening/detail/scaled_galerkin.hpp>
+#include <set>
+#define private public
+#include <amgcl/coarsening/ruge_stuben.hpp>
+#undef private
+typedef coarsening::ruge_stuben< backend::builtin<double> > RS;
+typedef backend::crs<char, ptrdiff_t, ptrdiff_t> CrsFlags;
+
+static bool rs_close(double a, double b) { return std::fabs(a - b) <= 1e-9 * (1 + std::fabs(a) + std::fabs(b)); }
+
+// returns 1 (REPRODUCED) when P violates the documented formula for the real S / cf of this run
+static int rs_check_once(const Crs &A, float eps_strong, bool do_trunc, float eps_trunc, bool verbose) {
+    size_t n = A.nrows;
+    RS::params prm; prm.eps_strong = eps_strong; prm.do_trunc = do_trunc; prm.eps_trunc = eps_trunc;
+    std::vector<char> cf(n, 'U'); CrsFlags S;
+    RS::connect(A, prm.eps_strong, S, cf);
+    RS::cfsplit(A, S, cf);
+    std::shared_ptr<Crs> P, R;
+    try { std::tie(P, R) = RS(prm).transfer_operators(A); }
+    catch (const error::empty_level &) {
+        for (size_t i = 0; i < n; ++i) if (cf[i] == 'C') FAIL("interpolation: empty_level thrown although point " << i << " is C");
+        return 0;
+    }
+    if (verbose) {
+        std::cout << "eps_strong = " << eps_strong << " do_trunc = " << do_trunc << " eps_trunc = " << eps_trunc << "  cf = ";
+        for (size_t i = 0; i < n; ++i) std::cout << cf[i];
+        std::cout << std::endl; print_crs("P", *P);
+    }
+    std::vector<ptrdiff_t> cidx(n, -1); size_t nc = 0;
+    for (size_t i = 0; i < n; ++i) if (cf[i] == 'C') cidx[i] = (ptrdiff_t)nc++;
+    std::string why;
+    if (P->nrows != n || P->ncols != nc) FAIL("interpolation: P is " << P->nrows << "x" << P->ncols << ", expected " << n << "x" << nc);
+    if (!wf(*P, why)) FAIL("interpolation: P is not well-formed (an unwritten slot?): " << why);
+    for (size_t i = 0; i < n; ++i) {
+        ptrdiff_t b = P->ptr[i], e = P->ptr[i + 1];
+        if (cf[i] == 'C') {
+            if (!(e - b == 1 && P->col[b] == cidx[i] && P->val[b] == 1.0)) FAIL("interpolation: C row " << i << " is not the single entry (i, cidx[i]) = 1");
+            continue;
+        }
+        double amin = 0, amax = 0, dia = 0, a_num = 0, b_num = 0, a_den = 0, b_den = 0, kneg = 0, kpos = 0;
+        for (ptrdiff_t j = A.ptr[i]; j < A.ptr[i + 1]; ++j) if (S.val[j] && cf[A.col[j]] == 'C') { amin = std::min(amin, A.val[j]); amax = std::max(amax, A.val[j]); }
+        double thr_min = amin * eps_trunc, thr_max = amax * eps_trunc;     // double * float, as documented: eps_tr * extremum
+        ptrdiff_t k = b; std::vector<std::pair<ptrdiff_t, ptrdiff_t> > kept;   // (entry of A, slot of P)
+        for (ptrdiff_t j = A.ptr[i]; j < A.ptr[i + 1]; ++j) {
+            ptrdiff_t c = A.col[j]; double v = A.val[j];
+            if ((size_t)c == i) { dia = v; continue; }
+            if (v < 0) a_num += v; else b_num += v;
+            if (!(S.val[j] && cf[c] == 'C')) continue;
+            if (v < 0) a_den += v; else b_den += v;
+            bool must_keep = !do_trunc || (v < 0 ? v < thr_min : v > thr_max);
+            bool must_drop = do_trunc && (v < 0 ? v > thr_min : v < thr_max);
+            bool present = k < e && P->col[k] == cidx[c];
+            if (must_keep && !present) FAIL("interpolation: row " << i << ": strong C coupling a(" << i << "," << c << ") = " << v << " is beyond the truncation threshold but is not the next entry of P");
+            if (must_drop && present) FAIL("interpolation: row " << i << ": strong C coupling a(" << i << "," << c << ") = " << v << " is inside the truncation threshold but is an entry of P");
+            if (present) { kept.push_back(std::make_pair(j, k)); ++k; if (v < 0) kneg += v; else kpos += v; }
+        }
+        if (k != e) FAIL("interpolation: row " << i << " of P has " << e - b << " slots but only " << k - b << " hold a kept strong C coupling (unwritten / extra slot)");
+        double dia2 = (b_num > 0 && b_den == 0) ? dia + b_num : dia;
+        double cfn = (do_trunc && kneg != 0) ? std::fabs(a_den) / std::fabs(kneg) : 1;
+        double cfp = (do_trunc && kpos != 0) ? std::fabs(b_den) / std::fabs(kpos) : 1;
+        double alpha = a_den != 0 ? -cfn * std::fabs(a_num) / (std::fabs(dia2) * std::fabs(a_den)) : 0;
+        double beta  = b_den != 0 ? -cfp * std::fabs(b_num) / (std::fabs(dia2) * std::fabs(b_den)) : 0;
+        for (size_t q = 0; q < kept.size(); ++q) {
+            double v = A.val[kept[q].first], w = P->val[kept[q].second], ex = (v < 0 ? alpha : beta) * v;
+            if (!rs_close(w, ex))
+                FAIL("interpolation: row " << i << ": weight of a(" << i << "," << A.col[kept[q].first] << ") = " << v << " is " << w
+                     << ", the documented formula (rescaled so that truncation keeps the total weight) gives " << ex
+                     << " [eps_strong = " << eps_strong << ", eps_trunc = " << eps_trunc << ", do_trunc = " << do_trunc << "]");
+        }
+    }
+    return 0;
+}
+// anisotropic Neumann Laplacian (x couplings -2, y couplings -1): with eps_trunc = 0.5 every y coupling of an F point with
+// an x neighbour in C lies EXACTLY at the truncation threshold (finding F6: ties were dropped but not compensated)
+static std::shared_ptr<Crs> rs_tie_scenario(int nx, int ny) {
+    int n = nx * ny; std::vector<double> D(n * n, 0.0);
+    for (int j = 0; j < ny; ++j) for (int i = 0; i < nx; ++i) { int p = j * nx + i;
+        if (i + 1 < nx) D[p * n + p + 1] = D[(p + 1) * n + p] = -2;
+        if (j + 1 < ny) D[p * n + p + nx] = D[(p + nx) * n + p] = -1; }
+    for (int p = 0; p < n; ++p) { double s = 0; for (int q = 0; q < n; ++q) if (q != p) s += D[p * n + q]; D[p * n + p] = -s; }
+    std::shared_ptr<Crs> A = std::make_shared<Crs>(); A->set_size(n, n, true);
+    for (int i = 0; i < n; ++i) for (int j = 0; j < n; ++j) if (D[i * n + j] != 0) ++A->ptr[i + 1];
+    A->set_nonzeros(A->scan_row_sizes());
+    for (int i = 0, h = 0; i < n; ++i) for (int j = 0; j < n; ++j) if (D[i * n + j] != 0) { A->col[h] = j; A->val[h] = D[i * n + j]; ++h; }
+    return A;
+}
+static int r_rs_interp(const Witness &w) {
+    auto A = crs_checked(w, "A"); if (!A) return 3;
+    print_crs("A", *A);
+    std::set<float> et, es;
+    const float es0[] = {0.25f, 0.5f, 0.1f, 0.9f, 0.01f}; es.insert(es0, es0 + 5);
+    const float et0[] = {0.5f, 0.2f, 0.25f, 0.75f, 1.0f}; et.insert(et0, et0 + 5);
+    // thresholds of the witness, where they are a scaling of the row extremum by one factor
+    std::vector<double> amin = w.arr("w_amin"), amax = w.arr("w_amax"), tmin = w.arr("w_thr_min"), tmax = w.arr("w_thr_max");
+    for (size_t i = 0; i < amin.size() && i < tmin.size(); ++i) if (amin[i] != 0 && tmin[i] / amin[i] >= 0 && tmin[i] / amin[i] <= 4) et.insert((float)(tmin[i] / amin[i]));
+    for (size_t i = 0; i < amax.size() && i < tmax.size(); ++i) if (amax[i] != 0 && tmax[i] / amax[i] >= 0 && tmax[i] / amax[i] <= 4) et.insert((float)(tmax[i] / amax[i]));
+    bool wdt = w.num("w_do_trunc") != 0;
+    std::cout << "S / cf of the witness are inputs of the region; natively they come from the real connect() / cfsplit(): scanning "
+              << es.size() << " eps_strong x " << et.size() << " eps_trunc values on the witness matrix" << std::endl;
+    for (int pass = 0; pass < 2; ++pass) {
+        bool dt = pass == 0 ? wdt : !wdt;
+        for (std::set<float>::iterator s = es.begin(); s != es.end(); ++s)
+            for (std::set<float>::iterator t = et.begin(); t != et.end(); ++t) {
+                int rc = rs_check_once(*A, *s, dt, *t, false);
+                if (rc) { rs_check_once(*A, *s, dt, *t, true); return rc; }
+                if (!dt) break;
+            }
+    }
+    std::cout << "not reproduced with the witness matrix; canned scenarios (exact ties at the truncation threshold):" << std::endl;
+    const int shapes[][2] = {{5, 5}, {3, 2}, {4, 3}, {7, 6}};
+    for (int k = 0; k < 4; ++k) {
+        auto T = rs_tie_scenario(shapes[k][0], shapes[k][1]);
+        const float ets[] = {0.5f, 0.25f, 1.0f};
+        for (int q = 0; q < 3; ++q) {
+            int rc = rs_check_once(*T, 0.25f, true, ets[q], false);
+            if (rc) { std::cout << "scenario: anisotropic Neumann Laplacian " << shapes[k][0] << "x" << shapes[k][1] << " (x: -2, y: -1)" << std::endl; return rc; }
+        }
+    }
+    return 0;
+}
+
 int main(int argc, char **argv) {
     if (argc < 3) return 2;
     std::string unit = argv[1];
@@ -222,6 +348,7 @@ int main(int argc, char **argv) {
     if (unit == "pointwise_aggregates_block") return r_pw_block(w);
     if (unit == "pointwise_remove_small_aggregates") return r_remove_small(w);
     if (unit == "tentative_prolongation_const") return r_tentative(w);
+    if (unit == "ruge_stuben_interpolation") return r_rs_interp(w);
     std::cout << "no replay for unit " << unit << std::endl;
     return 3;
 }
